@@ -441,6 +441,31 @@ def trip_predicates(root: str):
     return [{"assert": f"=!has({root}.trip.{name})", kind: body} for name, (kind, body) in TRIPS.items()]
 
 
+# koreo's own CEL functions and the list/map macros, applied to nested values that come from the inputs
+# (`gen_inputs` always provides `nested`: ≥2 non-empty lists, `groups`: ≥2 maps with non-empty `members`,
+# `labels`: a map).  A function that touches its arguments in place shows up in the echo of the next case.
+DERIVED = {
+    "flat": "=inputs.nested.flatten()",
+    "members": "=inputs.groups.map(g, g.members).flatten()",
+    "merged": "=inputs.labels.overlay({'added': 'x', 'tier': {'level': 2}})",
+    "long": "=inputs.nested.filter(l, size(l) > 1)",
+    "sizes": "=inputs.nested.map(l, size(l))",
+    "names": "=inputs.groups.map(g, g.name.lower())",
+    "json": "=to_json(inputs.nested)",
+    "first": "=inputs.name.split_first('-')",
+}
+
+
+def derived_fields(r, p=0.75):
+    """a few input-derived computed fields (each function evaluates them on the very inputs object it was handed)"""
+    if r.random() > p:
+        return {}
+    ks = r.sample(sorted(DERIVED), r.choice([1, 2, 3, 4]))
+    if r.random() < 0.7 and "flat" not in ks and "members" not in ks:
+        ks.append(r.choice(["flat", "members"]))
+    return {k: DERIVED[k] for k in ks}
+
+
 def value_function_spec(r):
     """echoes its inputs (and, through the overlay base, the resource it was given)"""
     spec = {"preconditions": trip_predicates("inputs"),
@@ -448,6 +473,9 @@ def value_function_spec(r):
     if r.random() < 0.3:
         spec["locals"] = {"l": r.choice(SAFE_STR)}
         spec["return"]["local"] = "=locals.l"
+    d = derived_fields(r)
+    if d:
+        spec["return"]["derived"] = d
     return spec
 
 
@@ -470,6 +498,9 @@ def resource_function_spec(r):
     if r.random() < 0.4:
         spec_body["ports"] = [{"name": "http", "port": 80}, {"name": "dns", "port": 53}]
         spec_body[MAP] = {"ports": ["name"]}
+    d = derived_fields(r, 0.6)
+    if d:
+        spec_body["derived"] = d
     resource = {"spec": spec_body}
     if meta:
         resource["metadata"] = meta
@@ -490,6 +521,9 @@ def resource_function_spec(r):
                            for name, (kind, body) in TRIPS.items()],
         "return": {"echo": "=inputs", "seen": "=resource"},
     }
+    d = derived_fields(r, 0.5)
+    if d:
+        spec["return"]["derived"] = d
     if r.random() < 0.6:
         spec["create"] = {"delay": r.choice([5, 11, 30])}
         if r.random() < 0.5:
@@ -504,8 +538,22 @@ def resource_function_spec(r):
     return spec
 
 
+def gen_nested(r):
+    """≥2 non-empty lists of scalars"""
+    return [[r.choice([1, 2, 3, "a", "b", True, 0.5]) for _ in range(r.choice([1, 2, 3]))]
+            for _ in range(r.choice([2, 2, 3, 4]))]
+
+
+def gen_groups(r):
+    return [{"name": r.choice(["Core", "infra", "Ops-1"]),
+             "members": [r.choice(["ann", "bob", "cy", "dee"]) for _ in range(r.choice([1, 2, 3]))]}
+            for _ in range(r.choice([2, 2, 3]))]
+
+
 def gen_inputs(r, trip=None):
-    inputs = {"name": r.choice(["alpha", "beta", "gamma-1"]), "payload": small_value(r, 2)}
+    inputs = {"name": r.choice(["alpha", "beta", "gamma-1"]), "payload": small_value(r, 2),
+              "nested": gen_nested(r), "groups": gen_groups(r),
+              "labels": {"app": r.choice(SAFE_STR[:4]), "tier": r.choice([{"level": 1}, "gold"])}}
     if r.random() < 0.5:
         inputs["extra"] = small_value(r, 1)
     if trip:
